@@ -1,0 +1,12 @@
+//go:build verif
+
+// Contracts for govc (see /verif/DESIGN.md). Comment-only; compiled only with -tags verif.
+
+package defs
+
+// The sizing parameters are package variables initialised once; EnableTestMode changes time-outs only. govc assumes the
+// initial values below at every function entry and checks that no function under contract assigns them.
+//@ global InputLogMaxMessageBytes == 1048576 && InputLogMaxRecordBytes == 1048832 && InputLogMinRecordBytesToPool == 1024
+//@ global ListenerLineBufferSize == 4195328 && IntermediateBufferMaxNumLogs == 500 && IntermediateBufferMaxTotalBytes == 4194304
+//@ global BufferMaxNumChunksInQueue == 500000 && BufferMaxNumChunksInMemory == 500 && ForwarderMaxPendingChunksForAck == 10
+//@ global IntermediateBufferedChannelSize == 1
